@@ -62,7 +62,7 @@ func remoteFn(c vkit.Call) vkit.Reply {
 	echo := sum(c.Path, c.RawQuery, relevantHeaders(c), string(c.Body))
 
 	switch {
-	case strings.HasPrefix(c.Path, "/authz"), strings.HasPrefix(c.Path, "/ctx"):
+	case strings.HasPrefix(c.Path, "/authz"), strings.HasPrefix(c.Path, "/ctx"), strings.HasPrefix(c.Path, "/pre"):
 		if strings.Contains(string(c.Body), "deny-me") {
 			return vkit.Reply{Status: 403}
 		}
@@ -459,6 +459,30 @@ func genSubjectHandlerCase(t *rapid.T, family string) caseSpec {
 	c.ExecA = []config.MechanismConfig{anonRef(subA), refA}
 	c.ExecB = []config.MechanismConfig{anonRef(subB), refB}
 	c.A, c.B = execution{Path: "/a/x", Headers: hdrA}, execution{Path: "/b/x", Headers: hdrB}
+
+	// The URL and the headers of the endpoint are templates with access to the outputs of earlier pipeline steps: a
+	// contextualizer without cache runs first, its result (which follows a request header) becomes part of the URL
+	// and of a header of the cached mechanism's request, and only that output differs between the two executions.
+	if c.Kind == "equal" && rapid.IntRange(0, 2).Draw(t, "outputsInEndpoint") == 0 {
+		pre := config.Mechanism{ID: "pre", Type: "generic", Config: config.MechanismConfig{
+			"endpoint": map[string]any{"url": remote.URL() + "/pre"}, "forward_headers": []any{"X-Pre"}, "cache_ttl": "0s",
+		}}
+		c.Ctx = append([]config.Mechanism{pre}, c.Ctx...)
+
+		ep := pc["endpoint"].(map[string]any)
+		if rapid.Bool().Draw(t, "outputInURL") {
+			ep["url"] = remote.URL() + remotePath + "/{{ .Outputs.pre.echo }}"
+		} else {
+			ep["headers"].(map[string]any)["X-From-Output"] = "{{ .Outputs.pre.echo }}"
+		}
+
+		preRef := config.MechanismConfig{"contextualizer": "pre"}
+		c.ExecA = []config.MechanismConfig{anonRef(subA), preRef, refA}
+		c.ExecB = []config.MechanismConfig{anonRef(subB), preRef, refB}
+		c.A.Headers = append(append([]vkit.HeaderKV{}, hdrA...), vkit.HeaderKV{Name: "X-Pre", Value: "one"})
+		c.B.Headers = append(append([]vkit.HeaderKV{}, hdrB...), vkit.HeaderKV{Name: "X-Pre", Value: "two"})
+		c.Kind, c.Identical, c.Detail = "one-component", false, "output of an earlier step used in the endpoint's url/header"
+	}
 
 	return c
 }
